@@ -7,9 +7,11 @@ seeds = os.path.abspath(sys.argv[1])
 mode = "target"
 only = None
 skip = "--skip-lean" in sys.argv
+match = None
 for i, a in enumerate(sys.argv):
     if a == "--props": mode = sys.argv[i + 1]
     if a == "--only": only = sys.argv[i + 1]
+    if a == "--match": match = sys.argv[i + 1]        # regular expression on the seed name
 ALL = [f"C{i:02d}" for i in range(1, 21)]
 wt = "/tmp/seedrun/repo"
 for i, a in enumerate(sys.argv):
@@ -36,6 +38,9 @@ try:
     for name, pid, patch in entries:
         if True:
             if only and name != only: continue
+            if match:
+                import re
+                if not re.search(match, name): continue
             subprocess.check_call(["git", "-C", wt, "checkout", "-q", "--", "."])
             r = subprocess.run(["git", "-C", wt, "apply", patch], capture_output=True, text=True)
             if r.returncode != 0:
